@@ -439,14 +439,20 @@ fn decode_mutations<E>(
     outputs: Outputs,
     mut set: SolutionSet,
 ) -> Result<SolutionSet, PredicatesError<E>> {
+    // The slots (contract, key) that already have a mutation, declared or computed:
+    // the returned set must still propose at most one mutation per slot.
+    let mut mut_set: HashSet<(ContentAddress, Key)> = HashSet::new();
+    for s in &set.solutions {
+        for m in &s.state_mutations {
+            mut_set.insert((s.predicate_to_solve.contract.clone(), m.key.clone()));
+        }
+    }
+
     // For each output check if there are any state mutations and apply them.
     for output in outputs.data {
         // No two outputs can point to the same solution index.
         // Get the solution that these outputs came from.
         let s = &mut set.solutions[output.solution_index as usize];
-
-        // Set to check for duplicate mutations.
-        let mut mut_set = HashSet::new();
 
         // For each memory output decode the mutations and apply them.
         for data in output.data {
@@ -461,7 +467,9 @@ fn decode_mutations<E>(
                         })?
                     {
                         // Check for duplicate mutation keys.
-                        if !mut_set.insert(mutation.key.clone()) {
+                        if !mut_set
+                            .insert((s.predicate_to_solve.contract.clone(), mutation.key.clone()))
+                        {
                             return Err(PredicatesError::Failed(PredicateErrors(vec![(
                                 output.solution_index,
                                 PredicateError::Mutations(MutationsError::DuplicateMutations(
